@@ -67,7 +67,7 @@ def table():
             if det[k].get('keys'):
                 key = det[k]['keys'][0]
                 break
-        cell = ', '.join(caught) if caught else '**missed**'
+        cell = ', '.join(caught) if caught else ('**missed**' if det else '(not run yet)')
         if missed and caught:
             cell += ' (silent: ' + ', '.join(missed) + ')'
         if inconc:
